@@ -55,7 +55,7 @@ class Obj:
         if self.cls == 'Oc':
             return 'Oc(tags=<set: hash order>)'  # not predictable: known finding apo-set-hashseed
         if self.cls == 'Oa':
-            return 'Oa(' + canon_param(self.vals['x']) + '|' + canon_param(self.vals['y']) + ')'
+            return 'Oa(' + sorted_repr(self.vals['x']) + '|' + sorted_repr(self.vals['y']) + ')'
         # AutoParameterObject: sorted init args, python repr of the values, `verbose` ignored, w elided at default
         args = {'k': self.vals['k']}
         if not (self.vals['w'] == 5):
@@ -70,6 +70,17 @@ class Sub(str):
         s = str.__new__(cls, value)
         s.original = original
         return s
+
+
+def sorted_repr(v):
+    """Twin of runtime.stable_repr for model values."""
+    if isinstance(v, Sub):
+        return repr(v.original)
+    if isinstance(v, list):
+        return '[' + ', '.join(sorted_repr(x) for x in v) + ']'
+    if isinstance(v, dict):
+        return '{' + ', '.join(f'{sorted_repr(k)}: {sorted_repr(x)}' for k, x in sorted(v.items())) + '}'
+    return repr(v)
 
 
 def py_repr(v):
@@ -255,7 +266,7 @@ def global_vars_of(case, cfgdir='<cfgdir>'):
 # ---- tasks ---------------------------------------------------------------------------------------------
 
 EXT = {'dict': 'json', 'list': 'json', 'str': 'json', 'int': 'json', 'numpy': 'npy', 'frame': 'pd',
-       'generator': 'jsonl', 'lazy': 'jsonl', 'list_numpy': None, 'dir': None, 'memory': None}
+       'generator': 'jsonl', 'lazy': 'jsonl', 'gen_empty': 'jsonl', 'list_numpy': None, 'dir': None, 'memory': None}
 
 
 class MTask:
@@ -488,11 +499,14 @@ def compute_key_value(tasks, n, parameter_mode=True):
     # expected provenance value
     ignored = {p['name'] for p in t.spec['params'] if p.get('ignore')}
     pv = {k: canon_param(v) for k, v in t.params.items() if k not in ignored}
+    def _iv(i):
+        tt = tasks[i['target']]
+        return None if tt.kind == 'gen_empty' else tt.value  # an empty generated sequence carries no digest
+
     if t.spec['style'] == 'all':
-        iv = sorted(((i['key'].split('::')[-1], tasks[i['target']].value) for i in present),
-                    key=lambda kv: (kv[0], str(kv[1])))
+        iv = sorted(((i['key'].split('::')[-1], _iv(i)) for i in present), key=lambda kv: (kv[0], str(kv[1])))
     else:
-        iv = [(i['idx'], tasks[i['target']].value) for i in present]
+        iv = [(i['idx'], _iv(i)) for i in present]
     t.value = provenance(t.slug, pv, iv)
     # descriptor: what goes into the computation, in placeholder form (C02/C03) - independent of the key text
     dparams = []
